@@ -187,6 +187,13 @@ func substValue(v Value, sub map[int]*Term) Value {
 	case IfaceV:
 		return IfaceV{Ref: Subst(x.Ref, sub), Dyn: x.Dyn, DynT: x.DynT}
 	case ArrayV:
+		if x.Vals != nil {
+			nv := make([]Value, len(x.Vals))
+			for i, f := range x.Vals {
+				nv[i] = substValue(f, sub)
+			}
+			return ArrayV{N: x.N, Elem: x.Elem, Vals: nv}
+		}
 		if x.A == nil {
 			return x
 		}
